@@ -481,8 +481,8 @@ def sup_coverage(run, C):
 
     def runit(sh_i):
         si, sh = sh_i
-        body = ["From XdrProofs Require Import SupB.", "Open Scope string_scope.",
-                "Eval vm_compute in (map sup_b [%s])." % ";\n".join(ct.ast(o["ast"]) for o in sh)]
+        body = ["From XdrProofs Require Import NoPanic.", "Open Scope string_scope.",
+                "Eval vm_compute in (map sup4_b [%s])." % ";\n".join(ct.ast(o["ast"]) for o in sh)]
         out = xv.coq_eval("supb_%s_%d" % (run.pid, si), "\n".join(body))
         return re.findall(r'\b(true|false)\b', out.split("=", 1)[1].split(": list")[0])
     try:
@@ -491,7 +491,7 @@ def sup_coverage(run, C):
         run.cov["sup_b_evaluation_failed"] = str(e)[:300]
         return
     n_true = vals.count("true")
-    run.cov["specs_satisfying_theorem_hypothesis_sup_b"] = "%d of %d" % (n_true, len(vals))
+    run.cov["specs_satisfying_theorem_hypothesis_sup4_b"] = "%d of %d" % (n_true, len(vals))
     outside = [C["specs"][o["index"]][1][-120:] for o, v in zip(obs, vals) if v == "false"]
     if outside:
         run.cov["specs_outside_sup_b_samples"] = outside[:5]
@@ -614,6 +614,7 @@ def check_c04(run):
     if C is None:
         return
     corpus_ties(run, C, need=("k2", "k3"))
+    sup_coverage(run, C)
     for n, c in enumerate(C["cases"]):
         l = c["real"]
         run.case((c["spec"], c["type"], c["input"]),
